@@ -11,6 +11,13 @@
 EXTENDS SearchSpace
 Sym == Permutations(Names) \cup Permutations(Dists)
 
+\* VIEW of the exhaustive instances.  The distributions of a trial that can never become eligible (FAIL, and
+\* PRUNED when include_pruned is off) are read by no action, no algorithm step and no property, so states
+\* that differ only there are explored once.
+Dead(t) == t.state = "FAIL" \/ (t.state = "PRUNED" /\ ~ip)
+View == <<[i \in 1..Len(trials) |-> IF Dead(trials[i]) THEN [trials[i] EXCEPT !.params = {}] ELSE trials[i]],
+          ip, algSome, algSpace, cursor, groups, result, est, ncalc>>
+
 \* Next-state relation used only with -simulate (SearchSpaceSim.cfg): the ask / enqueue / suggest / tell
 \* part of Next.  TLC draws the random walks over the trial operations; the harness then inserts Calculate
 \* (always enabled, does not change the trials) at seeded random points of each walk, and draws histories
